@@ -332,10 +332,12 @@ class SimBackend(httpcore.NetworkBackend):
 
 class AsyncSimStream(_StreamCommon, httpcore.AsyncNetworkStream):
     async def _answer(self, op):
+        """Value of the operation (or raises).  In the asyncio world the environment applies the
+        answer when it delivers it; in the sequential world it is applied here."""
         net = self._net
         if net.env.suspending:
             return await net.env.pend(op)
-        return net.env.immediate(op)
+        return net.apply(op, net.env.immediate(op))
 
     async def read(self, max_bytes: int, timeout: float | None = None) -> bytes:
         net = self._net
@@ -344,8 +346,7 @@ class AsyncSimStream(_StreamCommon, httpcore.AsyncNetworkStream):
         if e is not None:
             op.state = "raised:closed"
             raise e
-        ans = await self._answer(op)
-        return net.apply(op, ans)
+        return await self._answer(op)
 
     async def write(self, buffer: bytes, timeout: float | None = None) -> None:
         net = self._net
@@ -356,8 +357,7 @@ class AsyncSimStream(_StreamCommon, httpcore.AsyncNetworkStream):
         if e is not None:
             op.state = "raised:closed"
             raise e
-        ans = await self._answer(op)
-        net.apply(op, ans)
+        await self._answer(op)
 
     async def aclose(self) -> None:
         net = self._net
@@ -376,8 +376,7 @@ class AsyncSimStream(_StreamCommon, httpcore.AsyncNetworkStream):
         if e is not None:
             op.state = "raised:closed"
             raise e
-        ans = await self._answer(op)
-        layer = net.apply(op, ans)
+        layer = await self._answer(op)
         return AsyncSimStream(net, self._tr, layer)
 
 
@@ -390,10 +389,9 @@ class AsyncSimBackend(httpcore.AsyncNetworkBackend):
         net.connects_in_flight += 1
         try:
             if net.env.suspending:
-                ans = await net.env.pend(op)
+                tr = await net.env.pend(op)
             else:
-                ans = net.env.immediate(op)
-            tr = net.apply(op, ans)
+                tr = net.apply(op, net.env.immediate(op))
         finally:
             net.connects_in_flight -= 1
         return AsyncSimStream(net, tr, 0)
@@ -434,6 +432,9 @@ class SeqEnv:
     """
 
     suspending = False
+
+    def _mc_state(self):
+        return ("seqenv", self.faults, self.time)
 
     def __init__(self, chooser, *, segment=False, faults=0, fault_kinds=None, fp=None,
                  eof_anywhere=False, seg_cost=0, starve="hang", fault_ops=None):
